@@ -14,6 +14,8 @@ def run_file_check(chk, cfgs, sims=(), opts=None, judge=None, workers=12, replay
     o.update(opts or {})
     rp = vcheck.Replayer(binary, seed=chk.seed, opts=o, chunk=300, timeout_per_line=30)
     if replay is not None:
+        if '_fopts' in replay:      # the line was produced by a pass with its own options (name dictionary ...)
+            rp = vcheck.Replayer(binary, seed=chk.seed, opts=replay['_fopts'], chunk=300, timeout_per_line=30)
         replay_one(chk, rp, replay)
         return
     exhaustive = True
@@ -23,6 +25,7 @@ def run_file_check(chk, cfgs, sims=(), opts=None, judge=None, workers=12, replay
     def tap(run):
         for r in run:
             if judge is None or judge(r):
+                r['_fopts'] = o
                 seen_actions[r['step']['a'] + ':' + r['step']['res']] += 1
                 for st in r['pre']:
                     seen_actions['pre:' + st['a']] += 1
